@@ -153,6 +153,26 @@ def account(ctx, results):
             ctx.note(k, n)
 
 
+def boundary_specs():
+    """Range-boundary characters of rich's width table (first / last code point of double-width and zero-width ranges, single-code-point
+    ranges; `lib_layout.boundary_chars` picks them from the table): a comparison off by one in `_get_codepoint_cell_size` changes the width
+    of exactly these (sixth seeded round: `>` became `>=`, the last code point of every range measured 1 — `Text("⭐" * 10)` at 10 is a
+    20-cell line, borders pushed out) while CJK / emoji inside long ranges are unaffected.  A run of each double-width one at top level,
+    and the characters inside every kind of frame."""
+    T = lambda s, **kw: ("T", dict(plain=s, **kw))
+    wide, zero = L.boundary_chars()
+    out = [T(c * 10) for c in wide]
+    out += [T("".join("a" + z for z in zero[i:i + 6]) + " b") for i in range(0, len(zero), 6)]
+    mixed = [" ".join(wide[i:i + 4]) for i in range(0, len(wide), 4)]
+    for i, m in enumerate(mixed):
+        cell = T(m)
+        out.append([("PANEL", {"title": wide[i]}, cell), ("TABLE", {}, [({}, T(wide[i]), T(""), [cell, T("x")]), ({}, T("h"), T(""), [T(m[::-1]), T("y")])]),
+                    ("COLS", {}, [T(c) for c in m.split(" ")]), ("TREE", (T(m), "tree.line", True, [(cell, "tree.line", True, [])])),
+                    ("PAD", (0, 1, 0, 2), True, T(m, overflow="ellipsis", no_wrap=True)), ("RULE", {"title": wide[i] + " t"}),
+                    ("ALIGN", {"align": "center"}, T(m, overflow="crop", no_wrap=True)), ("GRP", True, [cell, T(m, justify="full")])][i % 8])
+    return out
+
+
 def corner_specs():
     """hand-written trees for the places an off-by-one hides: one representative per constructor at its structural minimum"""
     T = lambda s, **kw: ("T", dict(plain=s, **kw))
@@ -205,7 +225,7 @@ def corner_specs():
                    dict(overflow="ellipsis"))
         for wrap in (lambda e: e, lambda e: ("GRP", True, [e]), lambda e: ("ALIGN", {"align": "left"}, e), lambda e: ("CON", None, e),
                      lambda e: ("STY", e), lambda e: ("CON", 40, ("ALIGN", {"align": "right"}, e)))
-    ] + [
+    ] + boundary_specs() + [
         ("TABLE", {"expand": True}, [({"ratio": 1}, T("a"), T(""), [T("x")]), ({"ratio": 0}, T("b"), T(""), [T("y")]),
                                      ({}, T("c"), T(""), [T("long long long long long long long long text")])]),
         ("TABLE", {"expand": True, "box": None}, [({"ratio": 0}, T("b"), T(""), [T("y")]), ({"ratio": 2}, T("a"), T(""), [T("x x x x x x x x x x x x")])]),
@@ -320,7 +340,11 @@ MANIFEST = {
     "styled titles) compared character for character with real Console.render (not Console.print), widths smin-2..smin+12 densely and up to "
     "200, console widths 12..200, ASCII-only / legacy-Windows / colour consoles, objects re-rendered to expose kept state; smin computed "
     "independently in Python and cross-checked; the property evaluated directly on rich's own output on a domain WIDER than the theorem's "
-    "(ratio tables, Constrain/Align at any width, Columns(width>=1), Table(width)).",
+    "(ratio tables, Constrain/Align at any width, Columns(width>=1), Table(width)).  Content alphabets include RANGE-BOUNDARY characters of "
+    "rich's width table (first / last code point of double-width and zero-width ranges, single-code-point ranges: picked from the table by "
+    "`lib_layout.boundary_chars`, 23 double-width + 25 zero-width) in 34 corner trees and in ~12 % of the random words; cell widths on the "
+    "Python side come from a linear scan of CELL_WIDTHS as PARSED FROM THE SOURCE by harness/tables.py (nothing of rich.cells), so an "
+    "off-by-one in `_get_codepoint_cell_size` (sixth seeded round: `>` -> `>=`) is a failing input on real rich, not only a mismatch.",
     "note": "Variant flags (imported from props/c08.py, c02.py, c07.py; current values, all repaired): FRAMES_VARIANT 0, TEXT_FLAGS 00000000, "
     "TABLE_FLAGS 0000000 (1 = rich 9.10.0 as found).  Findings: progressbar-no-newline (F23, known, not repaired: the check prints "
     "KNOWN-FINDING lines for it, site Console.render) and table-ratio-zero-column (found by this check, repaired by fix 75c2776, "
